@@ -95,11 +95,11 @@ Proof.
   split.
   - constructor; [|constructor; [|constructor]].
     + split; [vm_compute; reflexivity|]. exists (VBytes (bs "lit")), (FStr []).
-      split; [unfold rule_src; split; [reflexivity|]; split; [reflexivity|]; split; [reflexivity|]; left; split; reflexivity|].
+      split; [unfold rule_src; split; [vm_compute; reflexivity|]; split; [vm_compute; reflexivity|]; split; [vm_compute; reflexivity|]; left; split; vm_compute; reflexivity|].
       split; [vm_compute; reflexivity|].
       intros cc E. rewrite (assign_counters cc e_ctx _ _ E). vm_compute. reflexivity.
     + split; [vm_compute; reflexivity|]. exists (VNode (jget e_doc [bs "n"])), (FInt 64 0).
-      split; [unfold rule_src; split; [reflexivity|]; split; [reflexivity|]; split; [reflexivity|]; right; left; split; [reflexivity|]; split; [reflexivity|]; split; [reflexivity|]; exists [bs "n"]; split; vm_compute; reflexivity|].
+      split; [unfold rule_src; split; [vm_compute; reflexivity|]; split; [vm_compute; reflexivity|]; split; [vm_compute; reflexivity|]; right; left; split; [vm_compute; reflexivity|]; split; [vm_compute; reflexivity|]; split; [vm_compute; reflexivity|]; exists [bs "n"]; split; vm_compute; reflexivity|].
       split; [vm_compute; reflexivity|].
       intros cc E. rewrite (assign_counters cc e_ctx _ _ E). vm_compute. reflexivity.
   - vm_compute. constructor; [|constructor; [|constructor]]; simpl; intuition discriminate.
@@ -146,8 +146,8 @@ Qed.
    premise of vloop_visits_all holds, so the body is entered once per element,
    in order, for every array *)
 Definition e_range_text : bytes := bs ("for k, v := range jso.a {" ++ enl ++ "probe(k, v)" ++ enl ++ "}" ++ enl).
-Definition e_loop : node := hd node0 (fst (parse_pure enames e_range_text)).
-Definition e_probe : node := hd node0 (child e_loop).
+Definition e_loop : node := Eval vm_compute in hd node0 (fst (parse_pure enames e_range_text)).
+Definition e_probe : node := Eval vm_compute in hd node0 (child e_loop).
 
 Opaque e_probe.
 Lemma e_body_never_breaks f c0 c1 br :
@@ -177,7 +177,8 @@ Proof. intro H. apply vloop_visits_all; [apply e_body_never_breaks|exact H]. Qed
 Definition e_switch_text : bytes :=
   bs ("switch jso.n {" ++ enl ++ "case 7:" ++ enl ++ "obj.Status = 1" ++ enl ++ "case 42:" ++ enl ++ "obj.Status = 2" ++ enl ++
       "default:" ++ enl ++ "obj.Status = 3" ++ enl ++ "}" ++ enl).
-Definition e_switch : node := hd node0 (fst (parse_pure enames e_switch_text)).
+(* the tree the parser model returns for the text, evaluated once *)
+Definition e_switch : node := Eval vm_compute in hd node0 (fst (parse_pure enames e_switch_text)).
 
 Example e_switch_second_case :
   typ e_switch = typeSwitch /\ switchArg e_switch <> [] /\
@@ -196,7 +197,7 @@ Qed.
    cond_selects_branch hold and the first branch runs *)
 Definition e_cond_text : bytes :=
   bs ("if 5 < jso.n {" ++ enl ++ "obj.Status = 1" ++ enl ++ "} else {" ++ enl ++ "obj.Status = 2" ++ enl ++ "}" ++ enl).
-Definition e_cond : node := hd node0 (fst (parse_pure enames e_cond_text)).
+Definition e_cond : node := Eval vm_compute in hd node0 (fst (parse_pure enames e_cond_text)).
 
 Example e_cond_literal_left :
   typ e_cond = typeCond /\ condHlp e_cond = [] /\ condStaticL e_cond = true /\ condStaticR e_cond = false /\
@@ -227,26 +228,26 @@ Example e_block3_is_independent :
   map fst e_block3 = e_three_tree /\
   store (fst (decode (testU None) 50 (rev e_three_tree) e_ctx3)) = store (fst (decode (testU None) 50 e_three_tree e_ctx3)).
 Proof.
-  split; [unfold St; split; [reflexivity|]; split; [reflexivity|]; split; [reflexivity|]; split; [reflexivity|]; intros; reflexivity|].
+  split; [unfold St; split; [vm_compute; reflexivity|]; split; [vm_compute; reflexivity|]; split; [vm_compute; reflexivity|]; split; [vm_compute; reflexivity|]; intros; reflexivity|].
   split; [|split; vm_compute; reflexivity].
   split.
   - constructor; [|constructor; [|constructor; [|constructor]]].
     + split; [vm_compute; reflexivity|]. exists (VInt 7), (FStr []).
-      split; [unfold rule_src; split; [reflexivity|]; split; [reflexivity|]; split; [reflexivity|]; right; right; left;
-              split; [reflexivity|]; split; [reflexivity|]; split; [reflexivity|]; exists (bs "ivar"), [];
+      split; [unfold rule_src; split; [vm_compute; reflexivity|]; split; [vm_compute; reflexivity|]; split; [vm_compute; reflexivity|]; right; right; left;
+              split; [vm_compute; reflexivity|]; split; [vm_compute; reflexivity|]; split; [vm_compute; reflexivity|]; exists (bs "ivar"), [];
               split; [vm_compute; reflexivity|]; split; [vm_compute; reflexivity|]; intros j; discriminate|].
       split; [vm_compute; reflexivity|].
       intros cc E. rewrite (assign_counters cc e_ctx3 _ _ E). vm_compute. reflexivity.
     + split; [vm_compute; reflexivity|]. exists (VInt 5), (FInt 64 0).
-      split; [unfold rule_src; split; [reflexivity|]; split; [reflexivity|]; split; [reflexivity|]; right; right; right;
-              split; [reflexivity|]; split; [reflexivity|]; split; [reflexivity|];
+      split; [unfold rule_src; split; [vm_compute; reflexivity|]; split; [vm_compute; reflexivity|]; split; [vm_compute; reflexivity|]; right; right; right;
+              split; [vm_compute; reflexivity|]; split; [vm_compute; reflexivity|]; split; [vm_compute; reflexivity|];
               exists (bs "st"), [bs "Status"], 1, [], e_st3, (FInt 64 5);
               split; [vm_compute; reflexivity|]; split; [vm_compute; reflexivity|]; split; [discriminate|];
-              split; [reflexivity|]; split; vm_compute; reflexivity|].
+              split; [vm_compute; reflexivity|]; split; vm_compute; reflexivity|].
       split; [vm_compute; reflexivity|].
       intros cc E. rewrite (assign_counters cc e_ctx3 _ _ E). vm_compute. reflexivity.
     + split; [vm_compute; reflexivity|]. exists (VBytes (bs "lit")), (FBytes []).
-      split; [unfold rule_src; split; [reflexivity|]; split; [reflexivity|]; split; [reflexivity|]; left; split; reflexivity|].
+      split; [unfold rule_src; split; [vm_compute; reflexivity|]; split; [vm_compute; reflexivity|]; split; [vm_compute; reflexivity|]; left; split; vm_compute; reflexivity|].
       split; [vm_compute; reflexivity|].
       intros cc E. rewrite (assign_counters cc e_ctx3 _ _ E). vm_compute. reflexivity.
   - vm_compute. constructor; [|constructor; [|constructor; [|constructor]]]; simpl; intuition discriminate.
